@@ -151,7 +151,7 @@ class PeersDriver(ClientDriver):
             'b': lambda i: f'23.{46 + i % 40}.7.{1 + i}',                # spread
             'v6': lambda i: f'2a01:4f8:{i % 3:x}:1{rng.randrange(4):x}00::{1 + i:x}',   # shared /56s
             'priv': lambda i: rng.choice([f'10.1.2.{1 + i}', f'192.168.1.{1 + i}', f'172.16.5.{1 + i}']),
-            'odd': lambda i: rng.choice([f'100.64.{i}.9', '127.0.0.1', f'169.254.1.{1 + i}', '224.0.0.5',
+            'odd': lambda i: rng.choice([f'100.64.{i}.9', f'100.100.{i}.7', f'100.127.255.{1 + i}', '127.0.0.1', f'169.254.1.{1 + i}', '224.0.0.5',
                                          '0.0.0.0', f'198.51.100.{1 + i}', 'fe80::1', '::1', f'fc00::{1 + i:x}']),
         }
         kinds = ['good'] * 6 + ['wrong_genesis', 'wrong_height', 'wrong_header', 'not_listed', 'garbage',
